@@ -272,6 +272,42 @@ fn run_flatten() -> (u64, Vec<Value>, Vec<Value>, Vec<Value>) {
     (n, f_paths, f_contains, f_panic)
 }
 
+/// `room_member_count` conditions: "is" = [op]N with op in {"", "==", "<", ">", "<=", ">="}
+fn run_member_count() -> (u64, Vec<Value>) {
+    let (mut n, mut f) = (0u64, vec![]);
+    let mut c = ctx();
+    for op in ["", "==", "<", ">", "<=", ">="] {
+        for bound in 0u32..6 {
+            let is = format!("{op}{bound}");
+            let cond: PushCondition = match serde_json::from_value(json!({"kind": "room_member_count", "is": is})) {
+                Ok(c) => c,
+                Err(e) => {
+                    fail(&mut f, json!({"is": is, "observed": format!("does not deserialize: {e}")}));
+                    continue;
+                }
+            };
+            let raw: Raw<Value> = Raw::new(&json!({"sender": "@o:s", "content": {}})).unwrap();
+            let flat = FlattenedJson::from_raw(&raw);
+            for count in 0u32..8 {
+                n += 1;
+                c.member_count = count.into();
+                let want = match op {
+                    "" | "==" => count == bound,
+                    "<" => count < bound,
+                    ">" => count > bound,
+                    "<=" => count <= bound,
+                    _ => count >= bound,
+                };
+                let got = cond.applies(&flat, &c);
+                if got != want {
+                    fail(&mut f, json!({"is": is, "member_count": count, "observed": got, "expected": want}));
+                }
+            }
+        }
+    }
+    (n, f)
+}
+
 pub fn run(tier: &str) -> Report {
     let thorough = tier == "thorough";
     let pat_alpha = ['a', 'B', '*', '?', ' ', '\u{e9}'];
@@ -323,12 +359,13 @@ pub fn run(tier: &str) -> Report {
         }
     }
     let (nf, f_paths, f_contains, f_fpanic) = run_flatten();
+    let (nm, f_count) = run_member_count();
     for x in f_fpanic {
         fail(&mut f_panic, x);
     }
     Report {
         bound: format!(
-            "glob: {} patterns (all of length 1..3 over {{a,B,*,?,space,é}} + {} longer) x {} values (all of length 0..{} over {:?} + longer cases) x {{content.body, other key}}; flattening: {} objects with <= 2 entries over 5 keys x 14 values, 10 probe scalars per path",
+            "glob: {} patterns (all of length 1..3 over {{a,B,*,?,space,é}} + {} longer) x {} values (all of length 0..{} over {:?} + longer cases) x {{content.body, other key}}; flattening: {} objects with <= 2 entries over 5 keys x 14 values, 10 probe scalars per path; room_member_count: 6 operators x bounds 0..5 x member counts 0..7",
             patterns.len(),
             21,
             values.len(),
@@ -342,6 +379,7 @@ pub fn run(tier: &str) -> Report {
             ("other_keys_glob_matches_the_whole_value", n / 2, f_whole),
             ("flattened_paths_and_scalar_values_match_the_spec", nf, f_paths),
             ("array_contains_sees_every_scalar_element", nf, f_contains),
+            ("room_member_count_comparisons_match_the_spec", nm, f_count),
             ("pattern_matching_and_flattening_never_panic", n + nf, f_panic),
         ],
     }
